@@ -144,5 +144,7 @@ pub open spec fn zw_appended<W: ZeroCopyWriter>(o: W, n: W, r: io::Result<usize>
         Ok(c) => n.zw_buf().len() == o.zw_buf().len() + c && n.zw_buf().subrange(0, o.zw_buf().len() as int) == o.zw_buf(),
         Err(_) => true })
 }
+// #[derive(Default)] of IoctlData: result 0, no data
+impl<'a> Default for IoctlData<'a> { fn default() -> (r: IoctlData<'a>) ensures r.result == 0, r.data is None { IoctlData { result: 0, data: None } } }
 pub open spec fn ioctl_arg(d: IoctlData<'_>) -> IoctlArg { IoctlArg { result: d.result, data: (match d.data { Some(s) => Some(s@), None => None::<Seq<u8>> }) } }
 pub open spec fn ioctl_res(r: io::Result<IoctlData<'_>>) -> io::Result<IoctlRes> { match r { Ok(d) => Ok(ioctl_arg(d)), Err(e) => Err(e) } }
